@@ -72,7 +72,11 @@ def verdict(name: str, strict: bool) -> Tuple[str, Optional[str]]:
     inst = ".".join(labels)
     if _has_control(inst):
         return REJECT, None
-    if len(inst.encode("utf-8")) > 63:
+    try:
+        inst_bytes = inst.encode("utf-8")
+    except UnicodeEncodeError:
+        return REJECT, None  # a lone surrogate: not text that can be put on the wire, hence not an instance label
+    if len(inst_bytes) > 63:
         if proto is None and len(labels) > 1:
             return UNSPEC, result  # bare .local. names: which part is "the instance label" is not documented
         return REJECT, None
